@@ -3,6 +3,7 @@ pub mod backend;
 pub mod bits;
 pub mod chain;
 pub mod common;
+pub mod diag;
 pub mod dynops;
 pub mod garbage;
 pub mod harness;
@@ -13,6 +14,7 @@ pub mod refs;
 pub mod rng;
 pub mod skew;
 pub mod store;
+pub mod vectors;
 pub mod worlds;
 
 use std::io::Read;
